@@ -249,12 +249,8 @@ func latestInfo(c *Ctx, id string) {
 				if x.Op.String() == "<-" {
 					return "receive", nil
 				}
-			case ssa.CallInstruction:
-				if cc := x.Common(); cc.StaticCallee() != nil && strings.HasSuffix(calleeName(cc), "Mutex).Lock") {
-					return "lock", nil
-				}
 			}
-			return "", nil
+			return "", nil // (a mutex around the field is not a hand-over: taking it is no event here)
 		}, 0)
 		ok := complete && len(seqs) > 0
 		for _, s := range seqs {
@@ -511,6 +507,9 @@ func dispatchUnconditional(c *Ctx, id string) {
 			// allowed: observers != nil, and the ok of observers.Load(vbID)
 			if _, isNil := isNilCompare(g.Cond, func(x ssa.Value) bool { return loadedField(unwrap(x)) == obsField }); isNil {
 				continue
+			}
+			if _, isNil := isNilCompare(g.Cond, func(x ssa.Value) bool { _, isP := unwrap(x).(*ssa.Parameter); return isP }); isNil {
+				continue // a nil report is no report
 			}
 			if ex, ok := g.Cond.(*ssa.Extract); ok && ex.Index == 1 {
 				if call, ok := ex.Tuple.(*ssa.Call); ok {
